@@ -117,6 +117,7 @@ class Machine:
         self.pending_c15 = []
         self.big_ok = True
         self.hint = None
+        self.last_mask = None
 
     # ------------------------------------------------------------------ violations
     def fail(self, prop, vclass, where, message):
@@ -187,8 +188,11 @@ class Machine:
                 if rng.random() < 0.8:
                     common = int(vals[numpy.argmax(counts)])
                 self.hint = dst
-        return {"op": "new", "dst": dst, "shape": list(shape), "values": a.ravel().tolist(),
-                "common": common, "strided": rng.random() < 0.12}
+        op = {"op": "new", "dst": dst, "shape": list(shape), "values": a.ravel().tolist(),
+              "common": common, "strided": rng.random() < 0.12}
+        if not op["strided"] and rng.random() < 0.15:
+            op["entry_kinds"] = [rng.choice(("array", "list", "tuple", "range")) for _ in range(rng.choice((1, 2, 3)))]
+        return op
 
     def gen_new3d(self, rng, palette):
         shape = (rng.choice((0, 1, 2, 3, 4)), rng.choice((1, 2, 3)), rng.choice((1, 2, 3)))
@@ -310,6 +314,13 @@ class Machine:
         else:
             p = rng.random()
             mask = [rng.random() < p for _ in range(n)]
+        if self.last_mask is not None and len(self.last_mask) == n and rng.random() < 0.5:
+            # same length as the previous mask: often also the same number of kept rows, different rows
+            prev = self.last_mask.tolist()
+            if rng.random() < 0.6:
+                mask = prev[:]
+                rng.shuffle(mask)
+            return {"op": "filtered", "slot": i, "mask": mask, "dst": self._dst(rng), "reuse_mask_object": True}
         return {"op": "filtered", "slot": i, "mask": mask, "dst": self._dst(rng),
                 "mask_layout": rng.choice(("plain", "plain", "strided", "readonly"))}
 
@@ -475,6 +486,13 @@ class Machine:
         if spec.get("strided"):
             entries = model.strided(entries)
             self.stats.count("probe_strided_rowid_arrays")
+        kinds = spec.get("entry_kinds")
+        if kinds:
+            # the constructor documents that row ids may be given as plain sequences and are converted
+            conv = {"list": lambda v: v.tolist(), "tuple": lambda v: tuple(v.tolist()), "array": lambda v: v,
+                    "range": lambda v: (range(int(v[0]), int(v[-1]) + 1) if len(v) and int(v[-1]) - int(v[0]) + 1 == len(v) else v.tolist())}
+            entries = {k: conv[kinds[i % len(kinds)]](v) for i, (k, v) in enumerate(entries.items())}
+            self.stats.count("probe_constructor_given_sequences")
         return iindex_cls()(entries, spec["common"], tuple(spec["shape"])), a
 
     def guard(self, cond):
@@ -623,7 +641,13 @@ class Machine:
         self.guard(len(op["mask"]) == s.a.shape[0])
         mask = numpy.array(op["mask"], dtype=bool)
         layout = op.get("mask_layout")
-        if layout == "strided":
+        if op.get("reuse_mask_object") and self.last_mask is not None and len(self.last_mask) == len(mask):
+            # the caller keeps ONE mask array and refills it in place between calls
+            self.last_mask[:] = mask
+            mask = self.last_mask
+            layout = None
+            self.stats.count("probe_filtered_with_refilled_mask_object")
+        elif layout == "strided":
             big = numpy.ones(len(mask) * 2, dtype=bool)
             big[::2] = mask
             mask = big[::2]
@@ -636,6 +660,8 @@ class Machine:
         new = Slot(out, s.a[mask])
         self.put(op["dst"], out, new.a)
         self.check_most_frequent(new, "filtered")
+        if mask.flags.writeable and mask.flags.c_contiguous:
+            self.last_mask = mask
 
     def do_sliced(self, op):
         s = self.slot(op["slot"], mindim=2, maxdim=3)
